@@ -222,12 +222,13 @@ package satisfaction_levels
 //@ spec sourceName(s SatisfactionLevelsSource) string
 //@ ifacemethod SatisfactionLevelsSource.Identifier
 //@   ensures result == sourceName(self)
-//@ spec blankOf(s SatisfactionLevelsSource) SatisfactionLevels
+// madeBy(x, s): x is a parameter object handed out by source s (a relation, not a function: every call hands out a new object)
+//@ spec madeBy(x SatisfactionLevels, s SatisfactionLevelsSource) bool
 //@ ifacemethod SatisfactionLevelsSource.BlankParams
-//@   ensures result == blankOf(self)
+//@   ensures madeBy(result, self)
 //@ func Find
-//@   property C14 C20 C12 C13 C01
-//@   ensures [first_source_with_that_name] len(function) > 0 && exists k int :: 0 <= k && k < len(functions) && sourceName(functions[k]) == function && result == blankOf(functions[k])
+//@   property C14 C20 C12 C13 C01 C09
+//@   ensures [first_source_with_that_name] len(function) > 0 && exists k int :: 0 <= k && k < len(functions) && sourceName(functions[k]) == function && madeBy(result, functions[k])
 //@             && forall j int :: 0 <= j && j < k ==> sourceName(functions[j]) != function
 //@   loop 1 invariant [none_so_far] len(function) > 0 && forall j int :: 0 <= j && j < iter ==> sourceName(functions[j]) != function
 
@@ -242,3 +243,33 @@ package satisfaction_levels
 //@ wire ThresholdsUpdate
 //@   property C01 C07 C14 C20
 //@   json Thresholds=thresholds
+
+// ---- registered names (what a request must say to select this object; what error messages list)
+//@ func (*ThresholdSatisfactionLevelsSource).Identifier
+//@   property C07 C14 C20
+//@   nopanic
+//@   ensures [name] result == "thresholds"
+
+// ---- the generated series, remaining pieces (C14, C12, C13)
+// the manager applies the update rule it was configured with (the four rules are the closures proved above)
+//@ func (*IncreasingCoefficientManager).UpdateValue
+//@   property C14 C12 C20
+//@   fnparam .updateCoefficient pure
+//@   ensures [configured_rule] result == apply(i.updateCoefficient, current, coefficient)
+//@ func (*DecreasingCoefficientManager).UpdateValue
+//@   property C14 C13 C20
+//@   fnparam .updateCoefficient pure
+//@   ensures [configured_rule] result == apply(d.updateCoefficient, current, coefficient)
+// a generated series has no per-criterion content: adding, removing and merging criteria leave its parameters as they are
+//@ func (*IdealCoefficientSatisfactionLevelsSource).OnCriterionAdded
+//@   property C14 C07 C18
+//@   nopanic
+//@   ensures [nothing_to_add] isnil(result)
+//@ func (*IdealCoefficientSatisfactionLevelsSource).OnCriteriaRemoved
+//@   property C14 C07 C15
+//@   nopanic
+//@   ensures [unchanged] result == params
+//@ func (*IdealCoefficientSatisfactionLevelsSource).Merge
+//@   property C14 C07 C18
+//@   nopanic
+//@   ensures [unchanged] result == params
